@@ -1001,7 +1001,7 @@ Lemma post_short_total_needed :
 Proof.
   set (t := {| t_kind := KCitation; t_start := 1; t_end := 2; t_data := [98%N];
                t_groups := [(g_page, Some [98%N])]; t_short := true; t_exact := []; t_var := [] |}).
-  exists (fun _ _ => None), (fun _ _ => []), 10%nat, 10%nat, {| d_nd := []; d_isdigit := [] |},
+  exists (fun _ _ => None), (fun _ _ => []), 10%nat, 10%nat, {| d_nd := []; d_isdigit := []; d_maxdigits := 4300%N |},
          2100, 2026, (fun _ => None), (fun _ => 0%nat), (fun _ => true), (fun _ => false),
          [97%N; 98%N], [W [97%N]; T t], [(1%nat, t)], false.
   eexists.
